@@ -118,7 +118,12 @@ func (r *histRun) storeRaced(i int, op M, race M) {
 		r.c.Count("race:deadlock", 1)
 		return
 	}
-	if innerDone && !getb(race, "afterCommit") {
+	// which write comes first in the equivalent sequential history: identifiers are drawn while a write fills its
+	// transaction, and every point but the entry points lies behind that — there the outer write has drawn its identifiers
+	// (and decided what is new) before the inner one started, whichever of the two commits first
+	pt := gets(race, "point")
+	atEntry := pt == "StoreEntities:0:begin" || pt == "ExecuteTransaction:0:begin"
+	if innerDone && atEntry {
 		op["order"] = "inner"
 		r.noteWrite(-1, inner)
 		r.noteWrite(i, op)
